@@ -7,12 +7,13 @@ Open Scope string_scope.
 (* expressions that may be evaluated per partition: selectors under functions,
    unary/paren/step-invariant wrappers and distributive aggregations whose
    parameter does not read the storage - no binary expression, no other
-   aggregation, no literal *)
+   aggregation, no literal, no absent() / absent_over_time(), no function called without its
+   vector argument *)
 Fixpoint pushable (e : expr) : bool :=
   match e with
   | EVec _ | EMat _ _ => true
   | EAgg op _ _ p e1 => mem_str op distributive_aggs && negb (match p with Some pe => reads_storage pe | None => false end) && pushable e1
-  | ECall _ args => forallb pushable args
+  | ECall f args => negb (global_call f args) && forallb pushable args
   | EUn _ e1 | EParen e1 | EStepInv e1 | ESubq e1 => pushable e1
   | _ => false
   end.
@@ -110,18 +111,20 @@ Proof.
     destruct (tbu n true e) as [e1' s]. destruct IHe as [I1 I2]. simpl in *.
     split; [assumption|]. intros Hs. destruct (I2 Hs) as [-> Hp]. auto.
   - (* call *)
-    assert (Hargs : Forall (fun a => plain a = true -> tbu_ok a (tbu n true a)) args).
+    set (d := distributive (ECall f args)).
+    assert (Hargs : Forall (fun a => plain a = true -> tbu_ok a (tbu n d a)) args).
     { eapply Forall_impl; [|exact H]. simpl. intros a Ha Hp. unfold tbu_ok. apply Ha. assumption. }
     destruct (tbu_args_spec _ args Hargs Hpl) as [A1 A2].
     change (tbu n pd (ECall f args)) with
-      (let '(args', s) := tbu_args (tbu n true) args in
+      (let '(args', s) := tbu_args (tbu n d) args in
        if s then (ECall f args', true) else dist_transform n pd (ECall f args')).
-    destruct (tbu_args (tbu n true) args) as [args' s]. simpl in A1, A2.
+    destruct (tbu_args (tbu n d) args) as [args' s]. simpl in A1, A2.
     destruct s.
     + split; [exact A1|discriminate].
     + destruct (A2 eq_refl) as [-> Hpa].
       destruct (dist_transform n pd (ECall f args)) as [e' s'] eqn:E.
-      exact (dist_transform_spec n pd (ECall f args) e' s' Hpl (fun _ _ => Hpa) E).
+      refine (dist_transform_spec n pd (ECall f args) e' s' Hpl _ E).
+      intros Hd _. cbn [pushable]. cbn [distributive] in Hd. rewrite Hd, Hpa. reflexivity.
   - (* agg *)
     apply andb_true_iff in Hpl. destruct Hpl as [Hp1 Hp2].
     change (tbu n pd (EAgg op w g p e)) with
